@@ -181,6 +181,14 @@ def run_case(ctx, case):
     for gene in sorted(results):
         ok, res = ctx.guard("detect-crash", case, rule.detect, gene, feats, results, circular_origin=wrap)
         # the class-wide monitor has evaluated the oracle on this call
+    # history: the same rule object meets other arrangements in which genes of the same names carry other hits (as
+    # one ruleset meets every record of a run), then the first arrangement again; the monitor judges every call
+    for other in case.get("later_layouts", []) + ([layout] if case.get("later_layouts") else []):
+        ctx.count("history:same-rule-object-on-another-arrangement")
+        feats2, results2 = build_inputs(other)
+        wrap2 = other["L"] if other["circular"] else 0
+        for gene in sorted(results2):
+            ctx.guard("detect-crash", dict(case, layout=other), rule.detect, gene, feats2, results2, circular_origin=wrap2)
     # non-triviality from the layout
     genes = list(feats.values())
     for i, a in enumerate(genes):
@@ -201,7 +209,12 @@ def gen_case(rng):
     cutoff_kb = rng.choice([1, 2, 3])
     text = RG.render(ast, rng, extra_parens=rng.choice([0.0, 0.0, 0.3]))
     layout = RG.gen_hit_layout(rng, RG.PROFILES, [cutoff_kb * 1000])
-    return {"ast": ast, "text": text, "cutoff_kb": cutoff_kb, "layout": layout}
+    case = {"ast": ast, "text": text, "cutoff_kb": cutoff_kb, "layout": layout}
+    if rng.random() < 0.3:
+        # the same genes with the hits dealt out differently, and an unrelated arrangement with the same gene names
+        shuffled = dict(layout, hits=dict(zip(layout["hits"], rng.sample(list(layout["hits"].values()), len(layout["hits"])))))
+        case["later_layouts"] = [shuffled, RG.gen_hit_layout(rng, RG.PROFILES, [cutoff_kb * 1000])][:rng.choice([1, 2])]
+    return case
 
 
 def run(ctx):
